@@ -43,6 +43,7 @@ type Object struct {
 	Err    *ErrData    // error objects created by stubs
 	Sym    *symNode    // symbolic type descriptor (C15)
 	Unseeded bool
+	Global   *ssa.Global // for KGlobal objects
 	Owned  bool        // C12: allocated by / handed to the operation under test
 	Tag    string      // provenance tag (input buffer, block buffer, bank...)
 	ptrOff map[int64]bool
